@@ -873,6 +873,11 @@ func (r *runningStep) executeSubWorkflows(input executeInput) ([]any, map[int]st
 			case sem <- struct{}{}:
 			case <-r.ctx.Done():
 				r.logger.Debugf("Aborting item %d execution.", i)
+				// An item that never ran is a failed item; without an entry here the loop
+				// would report success with a missing result for this index.
+				r.lock.Lock()
+				itemErrors[i] = "aborted before execution because the step was closed"
+				r.lock.Unlock()
 				return
 			}
 
